@@ -42,11 +42,29 @@ Qed.
 
 (* ------------------------------------------------------------------ *)
 (* lower-casing *)
+(* the regenerated table of non-ASCII case variants: non-ASCII code points, onto a-z *)
+Lemma casefold_extra_ok :
+  forallb (fun e => (127 <? fst e) && (97 <=? snd e) && (snd e <=? 122)) C20_casefold_extra = true.
+Proof. vm_compute. reflexivity. Qed.
+
+Lemma nassoc_in c : forall l a, nassoc c l = Some a -> In (c, a) l.
+Proof.
+  induction l as [|[x b] l IH]; intros a H; [discriminate|]. cbn [nassoc] in H.
+  destruct (N.eqb_spec c x) as [->|_].
+  - injection H as ->. now left.
+  - right. now apply IH.
+Qed.
+
 Lemma lower_c_10 c : (lower_c c =? 10) = (c =? 10).
 Proof.
-  unfold lower_c. destruct ((65 <=? c) && (c <=? 90)) eqn:E; [|reflexivity].
-  apply andb_true_iff in E as [E1 E2]. apply N.leb_le in E1, E2.
-  destruct (N.eqb_spec (c + 32) 10), (N.eqb_spec c 10); try reflexivity; lia.
+  unfold lower_c. destruct ((65 <=? c) && (c <=? 90)) eqn:E.
+  - apply andb_true_iff in E as [E1 E2]. apply N.leb_le in E1, E2.
+    destruct (N.eqb_spec (c + 32) 10), (N.eqb_spec c 10); try reflexivity; lia.
+  - destruct (nassoc c C20_casefold_extra) as [a|] eqn:A; [|reflexivity].
+    apply nassoc_in in A. pose proof casefold_extra_ok as F. rewrite forallb_forall in F.
+    specialize (F _ A). cbn [fst snd] in F. apply andb_true_iff in F as [F F3].
+    apply andb_true_iff in F as [F1 F2]. apply N.ltb_lt in F1. apply N.leb_le in F2, F3.
+    destruct (N.eqb_spec a 10), (N.eqb_spec c 10); try reflexivity; lia.
 Qed.
 
 (* ------------------------------------------------------------------ *)
@@ -440,8 +458,11 @@ End CleanProofs.
 
 (* ------------------------------------------------------------------ *)
 (* URL user-info step *)
-Lemma url_from_skip a : forall b, url_from (a ++ b) (List.length a) = url_from b 0.
-Proof. induction a as [|c a IH]; intros b; [reflexivity|]. cbn [app List.length url_from]. apply IH. Qed.
+Section Url.
+Variable repl : text.
+
+Lemma url_from_skip a : forall b, url_from_r repl (a ++ b) (List.length a) = url_from_r repl b 0.
+Proof. induction a as [|c a IH]; intros b; [reflexivity|]. cbn [app List.length url_from_r]. apply IH. Qed.
 
 Lemma find_close_app q u post : existsb (fun c => (c =? q) || (c =? 10)) u = false ->
   find_close q false (u ++ q :: post) = Some (List.length u).
@@ -462,17 +483,17 @@ Proof.
 Qed.
 
 Lemma url_from_unfold c r :
-  url_from (c :: r) 0 =
+  url_from_r repl (c :: r) 0 =
   if is_prefix [58; 47; 47] (c :: r) then
     match find_close 64 false (skipn 2 r) with
-    | Some n => C20_url_replacement ++ url_from r (3 + n)
-    | None => c :: url_from r 0
+    | Some n => repl ++ url_from_r repl r (3 + n)
+    | None => c :: url_from_r repl r 0
     end
-  else c :: url_from r 0.
+  else c :: url_from_r repl r 0.
 Proof. reflexivity. Qed.
 
 Lemma url_pre pre rest : contains [58; 47; 47] pre = false ->
-  url_from (pre ++ 58 :: 47 :: 47 :: rest) 0 = pre ++ url_from (58 :: 47 :: 47 :: rest) 0.
+  url_from_r repl (pre ++ 58 :: 47 :: 47 :: rest) 0 = pre ++ url_from_r repl (58 :: 47 :: 47 :: rest) 0.
 Proof.
   induction pre as [|c pre IH]; intros H; [reflexivity|].
   unfold contains in H. rewrite suffixes_cons in H. cbn [existsb] in H.
@@ -483,12 +504,12 @@ Proof.
   rewrite (is_prefix_sep_inside c pre rest H1). cbn [app]. f_equal. now apply IH.
 Qed.
 
-Lemma url_hides pre u post :
+Lemma url_hides_r pre u post :
   contains [58; 47; 47] pre = false ->
   existsb (fun c => (c =? 64) || (c =? 10)) u = false ->
-  url_step (pre ++ [58; 47; 47] ++ u ++ [64] ++ post) = pre ++ C20_url_replacement ++ url_step post.
+  url_step_r repl (pre ++ [58; 47; 47] ++ u ++ [64] ++ post) = pre ++ repl ++ url_step_r repl post.
 Proof.
-  intros Hp Hu. unfold url_step. cbn [app]. rewrite (url_pre _ _ Hp). f_equal.
+  intros Hp Hu. unfold url_step_r. cbn [app]. rewrite (url_pre _ _ Hp). f_equal.
   rewrite url_from_unfold. change (is_prefix [58; 47; 47] (58 :: 47 :: 47 :: u ++ 64 :: post)) with true.
   cbn [skipn]. rewrite (find_close_app 64 u post Hu). f_equal.
   change (47 :: 47 :: u ++ 64 :: post) with ((47 :: 47 :: u) ++ 64 :: post).
@@ -498,6 +519,20 @@ Proof.
     by (cbn [List.length]; rewrite app_length; cbn [List.length]; lia).
   apply url_from_skip.
 Qed.
+
+End Url.
+
+Lemma url_hides pre u post :
+  contains [58; 47; 47] pre = false ->
+  existsb (fun c => (c =? 64) || (c =? 10)) u = false ->
+  url_step (pre ++ [58; 47; 47] ++ u ++ [64] ++ post) = pre ++ C20_url_replacement ++ url_step post.
+Proof. exact (url_hides_r C20_url_replacement pre u post). Qed.
+
+Lemma gcl_url_hides pre u post :
+  contains [58; 47; 47] pre = false ->
+  existsb (fun c => (c =? 64) || (c =? 10)) u = false ->
+  gcl_url_step (pre ++ [58; 47; 47] ++ u ++ [64] ++ post) = pre ++ C20_gcl_url_replacement ++ gcl_url_step post.
+Proof. exact (url_hides_r C20_gcl_url_replacement pre u post). Qed.
 
 (* ------------------------------------------------------------------ *)
 (* the '|' split and the search for a JSON tail *)
@@ -820,4 +855,41 @@ Lemma report_redacts (str_of repr_of : json -> text) (digest colq : text -> text
 Proof.
   intros Hc Hg Hn Hs.
   apply (clean_redacts_spec str_of repr_of digest colq (JObj (report_obj gcl m n)) (1%nat :: p) i kvs k v); try assumption.
+Qed.
+
+(* ------------------------------------------------------------------ *)
+(* round 4 *)
+Lemma nonascii_keys :
+  C20_casefold_extra = [(304, 105); (305, 105); (383, 115); (8490, 107)] /\
+  forallb (fun k => sensitive_spec k && sensitive_code k)
+    [T "pa" ++ [383; 383] ++ T "word"; T "DB_PA" ++ [383; 383] ++ T "WORD"; T "client_" ++ [383] ++ T "ecret";
+     T "credential" ++ [383] ++ T "_file"; T "api_" ++ [8490] ++ T "ey"; T "CREDENT" ++ [304] ++ T "ALS";
+     T "credent" ++ [305] ++ T "als"; T "X_TO" ++ [8490] ++ T "EN"; T "my" ++ [383] ++ T "ecret_" ++ [8490] ++ T "EY"] = true /\
+  forallb (fun k => negb (sensitive_spec k) && negb (sensitive_code k))
+    [T "pa" ++ [223] ++ T "word"; T "pa" ++ [383; 383] ++ T "words"; [8490] ++ T "ey"; T "to" ++ [8490] ++ T "en";
+     T "credent" ++ [237] ++ T "als"; T "pa" ++ [353; 353] ++ T "word"] = true.
+Proof. repeat split; vm_compute; reflexivity. Qed.
+
+Lemma gcl_text_sanitized :
+  (forall (digest : text -> text) (o : obj) (t : text),
+     gcl_text_event digest (Some o) t = GDict (clean_record_model digest false o)) /\
+  (forall (digest : text -> text) (pre userinfo post : text),
+     contains [58; 47; 47] pre = false ->
+     existsb (fun c => (c =? 64) || (c =? 10)) userinfo = false ->
+     gcl_text_event digest None (pre ++ [58; 47; 47] ++ userinfo ++ [64] ++ post) =
+     GText (pre ++ C20_gcl_url_replacement ++ gcl_url_step post)).
+Proof.
+  split; [reflexivity|]. intros digest pre u post Hp Hu. unfold gcl_text_event. f_equal.
+  now apply gcl_url_hides.
+Qed.
+
+(* a URL text warning reported by GoogleLogger: the report carries the stripped text (a375704) *)
+Lemma gcl_report_url_text n pre u post :
+  contains [58; 47; 47] pre = false ->
+  existsb (fun c => (c =? 64) || (c =? 10)) u = false ->
+  report_obj true (WText (pre ++ [58; 47; 47] ++ u ++ [64] ++ post) None) n =
+  [(T "message", JStr (T "The following message was suppressed " ++ dec_of_nat n ++ T " time(s)"));
+   (T "suppressed", JStr (pre ++ C20_gcl_url_replacement ++ gcl_url_step post))].
+Proof.
+  intros Hp Hu. unfold report_obj, wvalue. now rewrite (gcl_url_hides pre u post Hp Hu).
 Qed.
